@@ -49,11 +49,12 @@ class AQTTargetGateset(cirq.TwoQubitCompilationTargetGateset):
     def _decompose_single_qubit_operation(self, op: cirq.Operation, _: int) -> DecomposeResult:
         # unwrap tagged and circuit operations to get the actual operation
         opu = op.untagged
-        opu = (
-            next(opu.circuit.all_operations()).untagged
-            if isinstance(opu, cirq.CircuitOperation) and len(opu.circuit) == 1
-            else opu
-        )
+        if isinstance(opu, cirq.CircuitOperation):
+            # Only a sub-circuit that stands for exactly one operation is unwrapped; repetitions and
+            # the qubit map are part of what it stands for.
+            mapped_ops = list(opu.mapped_circuit().all_operations())
+            if len(mapped_ops) == 1:
+                opu = mapped_ops[0].untagged
         if isinstance(opu.gate, cirq.HPowGate) and opu.gate.exponent == 1:
             return [cirq.rx(np.pi).on(opu.qubits[0]), cirq.ry(-1 * np.pi / 2).on(opu.qubits[0])]
         if cirq.has_unitary(opu):
